@@ -399,11 +399,58 @@ pub fn run(ctx: &Ctx) -> Report {
         let l = pf.loaded.meta.layout.as_str();
         with_layout!(l, L, one_layout::<L>(ctx, pf, &mut rep));
     }
+    // ---- the coefficient vectors themselves: the DEEP coefficients the real commit phase derives for the proofs
+    // native to this build must be 1, a, a^2, ... (pairwise distinct, one per opened value)
+    let n_vectors = coefficient_vectors(ctx, &mut rep);
+    rep.extra.insert("deep_coefficient_vectors_inspected".into(), json!(n_vectors));
     rep.bound_completed = format!("{} layouts; every coefficient position of both evaluators", files.len());
     rep
 }
 
+fn coefficient_vectors(ctx: &Ctx, rep: &mut Report) -> usize {
+    let mut n_vectors = 0;
+    for pf in crate::refm::stonefile::native_proofs(ctx) {
+        let l = pf.loaded.meta.layout.clone();
+        let want = with_layout!(l.as_str(), L, L::MASK_SIZE + L::CONSTRAINT_DEGREE);
+        match with_layout!(l.as_str(), L, crate::props::common::commit_phase::<L>(&pf.loaded.proof)) {
+            Err(e) => rep.cap(&format!("{}: commit phase fails ({}), coefficient vector not inspected", pf.name, e)),
+            Ok(c) => {
+                n_vectors += 1;
+                let v = &c.oods_coefficients;
+                let mut bad: Option<String> = None;
+                if v.len() != want {
+                    bad = Some(format!("{} coefficients for {} opened values", v.len(), want));
+                } else if v[0] != Felt::ONE {
+                    bad = Some("first coefficient is not 1".into());
+                } else {
+                    for i in 1..v.len() {
+                        if v[i] != v[i - 1] * v[1] {
+                            bad = Some(format!("coefficient {} is not coefficient {} times the challenge", i, i - 1));
+                            break;
+                        }
+                    }
+                    let set: std::collections::HashSet<_> = v.iter().map(|f| f.to_bytes_be()).collect();
+                    if bad.is_none() && set.len() != v.len() {
+                        bad = Some("two opened values share a coefficient".into());
+                    }
+                }
+                rep.evals(if bad.is_some() { "deep-coefficients:not-powers" } else { "deep-coefficients:powers-of-the-challenge" }, v.len() as u64);
+                rep.nontrivial_case(&format!("coeffvec|{}", pf.name));
+                if let Some(b) = bad {
+                    rep.violation(&format!("deep-coefficients:{}:not-independent", l), &format!("{}: DEEP coefficient vector derived by stark_commit: {}", pf.name, b), json!({"kind": "coeffvec", "layout": l}));
+                }
+            }
+        }
+    }
+    n_vectors
+}
+
 pub fn replay(ctx: &Ctx, case: &Value) -> super::ReplayResult {
+    if case["kind"] == "coeffvec" {
+        let mut rep = Report::new("C16", "exploration", "");
+        coefficient_vectors(ctx, &mut rep);
+        return Ok((!rep.violations.is_empty(), format!("{:?}", rep.violations.keys().collect::<Vec<_>>())));
+    }
     let layout = case["layout"].as_str().ok_or("layout")?;
     let files = pick(ctx);
     let pf = files.iter().find(|p| p.loaded.meta.layout == layout).ok_or("no proof for that layout")?;
